@@ -298,6 +298,35 @@ where
         monitors(h, &format!("commit_M{}", m), &tsh, &[], &[]);
     }
 
+    // commit with an ABSENT message list: the blind factor is as fresh as with an empty list, the commitment is
+    // not the identity, and the blindings are the drawn scalars
+    {
+        let mut tsh = Vec::new();
+        let mut blinds: HashSet<Vec<u8>> = HashSet::new();
+        for _ in 0..3 {
+            let (c, draws) = commit::<CS>(h, None, vec![]);
+            let id = h.last();
+            h.stat("C07.commit_absent_list");
+            if let Some((c, bf)) = c.ok() {
+                let cb = c.to_bytes();
+                let bfb = bf.to_bytes();
+                h.expect(bfb != [0u8; 32], "C07.commit_none_zero_blind", "commit(None) returned a zero blind factor", &[id]);
+                h.expect(cb[0] & 0x40 == 0, "C07.commit_none_identity", "commit(None) returned the identity commitment", &[id]);
+                h.expect(blinds.insert(bfb.to_vec()), "C07.repeat_blindfactor", "commit(None) repeated a blind factor", &[id]);
+                let k = (cb.len() - 48) / 32;
+                let ss: Vec<Scalar> = (0..k).map(|i| sc(&cb[48 + 32 * i..80 + 32 * i])).collect();
+                let ch = ss[k - 1];
+                let bl = vec![ss[0] - sc(&bfb) * ch];
+                let roles = draws.len() == 2 && draws[0].value[..] == bfb[..] && bl[0].to_be_bytes()[..] == draws[1].value[..];
+                h.expect(roles, "C07.commit_roles_shapes", "commit(None): blind factor / blinding are not the drawn scalars", &[id]);
+                tsh.push(Transcript { points: vec![cb[..48].to_vec()], blindings: bl, tape: draws.iter().map(|d| d.value.clone()).collect() });
+            } else {
+                h.expect(false, "C07.commit_none", "commit(None) failed", &[id]);
+            }
+        }
+        monitors(h, "commit_absent_list", &tsh, &[], &[]);
+    }
+
     // (f) random key pairs
     let mut sks: HashSet<Vec<u8>> = HashSet::new();
     for _ in 0..n {
@@ -432,6 +461,12 @@ where
             if l > 0 {
                 update::<CS>(h, &sig, &sk, &msgs[l - 1], b"updated", l - 1, l);
             }
+            // "no commitment" given as None and as the empty octet string: the same (deterministic) signature
+            let b_none = blindsign::<CS>(h, &sk, &pk, None, hdr.as_deref(), Some(&msgs));
+            let n_id = h.last();
+            let b_empty = blindsign::<CS>(h, &sk, &pk, Some(&[]), hdr.as_deref(), Some(&msgs));
+            let same = match (b_none.ok(), b_empty.ok()) { (Some(a), Some(b)) => a.to_bytes() == b.to_bytes(), _ => false };
+            h.expect(same, "C10.no_commitment_default", "blind_sign with an absent commitment and with the empty octet string differ", &[n_id, h.last()]);
         }
     }
     let _ = rand_tape(h, 0);
